@@ -19,6 +19,9 @@ inductive KeyExpr where
   | tuple
   /-- `hash(tuple(…))` -/
   | hashTuple
+  /-- `tuple((type(record[col]), record[col]) for col in group_column_indicies)`: every key value next to
+  its Python type -/
+  | typedTuple
   deriving DecidableEq, Repr
 
 /-- A test on the `value` of an emitted triple. -/
@@ -59,6 +62,17 @@ inductive ValExpr where
   | starIfMissing
   /-- `record[column]` (for a column that is not in the frame, `record[-1]`: the last cell) -/
   | cell
+  deriving DecidableEq, Repr
+
+/-- How `_map` finds the position of a requested column (`collect_column_indicies = […]`); `-1` stands
+for "not a column of the frame", the `*` of `COUNT(*)`. -/
+inductive ColIndexExpr where
+  /-- `source_columns.index(target) if target in source_columns else -1` -/
+  | indexIfPresent
+  /-- `positions.get(target, -1)` with `positions` the first position of every column name -/
+  | getDefault
+  /-- `positions.get(target) or -1`: position `0` is falsy, so the FIRST column of the frame turns into `-1` -/
+  | getOrMinusOne
   deriving DecidableEq, Repr
 
 /-- What the row loop of `_map` iterates. -/
